@@ -38,8 +38,16 @@ pub fn check(c: &OntCase, stats: &mut Stats) -> CheckResult {
         Err(e) => return fail("construct/bin-v3", e),
     };
     let sb = observe(&via_bin);
-    if sb != snap {
-        let d = diff_snapshots(&sb, &snap);
+    // (the binary format encodes "no replacement" as id 0: a replacement HP:0000000 exists in the text form only)
+    let mut snap_b = snap.clone();
+    for t in snap_b.terms.values_mut() {
+        if t.replacement == Some(0) {
+            t.replacement = None;
+            t.replaced_by = None;
+        }
+    }
+    if sb != snap_b {
+        let d = diff_snapshots(&sb, &snap_b);
         return fail(format!("differs-from-binary/{pn}"), format!("text loader vs binary loader on the same facts: {}", d.iter().take(3).cloned().collect::<Vec<_>>().join(" | ")));
     }
     // differential: the Builder API (cannot express flags)
@@ -88,6 +96,9 @@ pub fn check(c: &OntCase, stats: &mut Stats) -> CheckResult {
     }
     if n.long_lines {
         stats.label("lines-longer-than-8KiB");
+    }
+    if expected.terms.iter().any(|t| t.replacement == Some(0)) {
+        stats.label("replacement-id-0");
     }
     match n.eof % 3 {
         1 => stats.label("files-without-final-newline"),
@@ -146,6 +157,11 @@ fn strategy(tier: Tier) -> BoxedStrategy<OntCase> {
                     t.replacement = None;
                 }
             }
+            // the text format can name HP:0000000 as replacement (the binary format cannot: 0 means none)
+            if noise.comments == 2 && !facts.terms.is_empty() {
+                let i = noise.typedefs as usize % facts.terms.len();
+                facts.terms[i].replacement = Some(0);
+            }
             let term_ids: Vec<u32> = facts.terms.iter().map(|t| t.id).collect();
             for (k, p, existing, tp) in nots {
                 let recs = &facts.recs[k as usize];
@@ -196,7 +212,7 @@ impl Property for C09 {
         }
     }
     fn required_labels(&self, _tier: Tier) -> Vec<&'static str> {
-        vec!["nontrivial", "NOT-rows", "disease-only-negated", "NOT-row-for-an-existing-link", "DECIPHER-rows", "typedef-stanzas", "extra-columns", "name-with-colon-space", "non-ascii-name", "transitive-loader", "compared-with-builder", "obo-without-header", "hpoa-without-column-line", "hpoa-starts-with-a-row", "files-without-final-newline", "files-with-blank-line-at-end", "lines-longer-than-8KiB"]
+        vec!["nontrivial", "NOT-rows", "disease-only-negated", "NOT-row-for-an-existing-link", "DECIPHER-rows", "typedef-stanzas", "extra-columns", "name-with-colon-space", "non-ascii-name", "transitive-loader", "compared-with-builder", "obo-without-header", "hpoa-without-column-line", "hpoa-starts-with-a-row", "files-without-final-newline", "files-with-blank-line-at-end", "lines-longer-than-8KiB", "replacement-id-0"]
     }
     fn run_generated(&self, tier: Tier, seed: u64, n: u64, stats: &mut Stats) -> Option<(Value, Failure)> {
         run_typed(strategy(tier), seed, n, stats, check)
